@@ -1,27 +1,57 @@
-(* request handlers of the shrink model driver (C09); stateful: one scenario at a time *)
+(* request handlers of the shrink model driver (C09); stateful: one scenario at a time.
+
+   Byte strings are hex ("-" = empty). A field update is two tokens <name> <json|z> (z = zero value).
+   Canonical command text (also the format of `out`, `log`, and what the harness builds itself):
+     set <k> <i> <ex 0|1> <geo> [<name>:<json|z>]*     fset <k> <i> [<name>:<json|z>]+
+     expire <k> <i>   persist <k> <i>   del <k> <i>   pdel <k> <prefix>   drop <k>
+     rename <a> <b>   flushdb
+     hset <name> <chan 0|1> <ex 0|1> <body>   hdel <name> <chan>   hpdel <prefix> <chan>
+   Lists are joined with ",". *)
 open Model
 
 let hx = Conv.bytes_of_hex
 let xh = Conv.hex_of_bytes
+let b01 b = if b then "1" else "0"
 
 let mk = ref maxkeys
 let mi = ref maxids
-(* the whole server-side state of the model: live dataset, rewrite, shrinklog, shrinking flag *)
+(* objects: live dataset, rewrite, shrinklog, shrinking flag; hooks: registry, hooks phase, log *)
 let r : run ref = ref (idle [])
+let hr : hrun ref = ref (hrun_init [])
+(* the shrinklog in arrival order (object and hook commands interleaved; FLUSHDB once) *)
+let merged : Stdlib.String.t list ref = ref []
+
+let fu_str (n, v) = xh n ^ ":" ^ (match v with Some x -> xh x | None -> "z")
+let fus_str us = Stdlib.String.concat "" (Stdlib.List.map (fun u -> " " ^ fu_str u) us)
 
 let cmd_str = function
-  | CSet (k, i, v) -> Printf.sprintf "set %s %s %s" (xh k) (xh i) (xh v)
+  | CSet (k, i, us, ex, geo) -> Printf.sprintf "set %s %s %s %s%s" (xh k) (xh i) (b01 ex) (xh geo) (fus_str us)
+  | CFset (k, i, us) -> Printf.sprintf "fset %s %s%s" (xh k) (xh i) (fus_str us)
+  | CExpire (k, i) -> Printf.sprintf "expire %s %s" (xh k) (xh i)
+  | CPersist (k, i) -> Printf.sprintf "persist %s %s" (xh k) (xh i)
   | CDel (k, i) -> Printf.sprintf "del %s %s" (xh k) (xh i)
+  | CPdel (k, p) -> Printf.sprintf "pdel %s %s" (xh k) (xh p)
   | CDrop k -> Printf.sprintf "drop %s" (xh k)
   | CRename (a, b) -> Printf.sprintf "rename %s %s" (xh a) (xh b)
   | CFlushdb -> "flushdb"
 
-let cmds_str l = match l with [] -> "-" | _ -> Stdlib.String.concat "," (Stdlib.List.map cmd_str l)
+let hcmd_str = function
+  | HSet (n, h) -> Printf.sprintf "hset %s %s %s %s" (xh n) (b01 h.h_chan) (b01 h.h_ex) (xh h.h_body)
+  | HDel (n, c) -> Printf.sprintf "hdel %s %s" (xh n) (b01 c)
+  | HPdel (p, c) -> Printf.sprintf "hpdel %s %s" (xh p) (b01 c)
+  | HFlush -> "flushdb"
 
-let dump (s : st) =
-  match flatten s with
-  | [] -> "-"
-  | l -> Stdlib.String.concat "," (Stdlib.List.map (fun ((k, i), v) -> Printf.sprintf "%s %s %s" (xh k) (xh i) (xh v)) l)
+let join = function [] -> "-" | l -> Stdlib.String.concat "," l
+let cmds_str l = join (Stdlib.List.map cmd_str l)
+let hcmds_str l = join (Stdlib.List.map hcmd_str l)
+
+let obj_str k i o =
+  Printf.sprintf "%s %s %s %s%s" (xh k) (xh i) (b01 o.o_dl) (xh o.o_geo)
+    (fus_str (Stdlib.List.map (fun (n, v) -> (n, Some v)) o.o_fields))
+
+let dump (s : st) = join (Stdlib.List.map (fun ((k, i), o) -> obj_str k i o) (flatten s))
+let hdump (g : hreg) =
+  join (Stdlib.List.map (fun (n, h) -> Printf.sprintf "%s %s %s %s" (xh n) (b01 h.h_chan) (b01 h.h_ex) (xh h.h_body)) g)
 
 let gate () =
   let sh = !r.r_sh in
@@ -31,15 +61,41 @@ let gate () =
   | AtIds nid -> (match sh.sh_keys with
                   | [] -> "panic"
                   | k0 :: _ -> Printf.sprintf "ids %s %s" (xh k0) (xh nid))
-  | ScanDone -> "scandone"
+  | ScanDone ->
+      (match !hr.hr_sh.hs_pos with
+       | HNames -> "hooknames - -"
+       | HEmit (n :: _) -> Printf.sprintf "hook %s -" (xh n)
+       | HEmit [] -> "hook ? -"
+       | HDone -> "final - -")
+
+let rec parse_fus toks =
+  match toks with
+  | [] -> Some []
+  | n :: v :: rest ->
+      (match parse_fus rest with
+       | Some l -> Some ((hx n, (if v = "z" then None else Some (hx v))) :: l)
+       | None -> None)
+  | _ -> None
 
 let parse_cmd toks =
   match toks with
-  | ["set"; k; i; v] -> Some (CSet (hx k, hx i, hx v))
+  | "set" :: k :: i :: ex :: geo :: fs ->
+      (match parse_fus fs with Some us -> Some (CSet (hx k, hx i, us, ex = "1", hx geo)) | None -> None)
+  | "fset" :: k :: i :: fs ->
+      (match parse_fus fs with Some us -> Some (CFset (hx k, hx i, us)) | None -> None)
+  | ["expire"; k; i] -> Some (CExpire (hx k, hx i))
+  | ["persist"; k; i] -> Some (CPersist (hx k, hx i))
   | ["del"; k; i] -> Some (CDel (hx k, hx i))
+  | ["pdel"; k; p] -> Some (CPdel (hx k, hx p))
   | ["drop"; k] -> Some (CDrop (hx k))
   | ["rename"; a; b] -> Some (CRename (hx a, hx b))
-  | ["flushdb"] -> Some CFlushdb
+  | _ -> None
+
+let parse_hcmd toks =
+  match toks with
+  | ["hset"; n; c; ex; body] -> Some (HSet (hx n, { h_chan = (c = "1"); h_body = hx body; h_ex = (ex = "1") }))
+  | ["hdel"; n; c] -> Some (HDel (hx n, c = "1"))
+  | ["hpdel"; p; c] -> Some (HPdel (hx p, c = "1"))
   | _ -> None
 
 let cp_name = function
@@ -50,33 +106,71 @@ let cp_name = function
 
 let present = function Some _ -> "1" | None -> "0"
 
+let reset () = r := idle []; hr := hrun_init []; merged := []
+
+let outcome_str = function
+  | Updated -> "updated" | NotUpdated -> "notupdated" | ErrKeyNotFound -> "err:keynotfound" | ErrIdNotFound -> "err:idnotfound"
+
+(* an object command; hooks are untouched *)
+let do_w c =
+  let (_, o) = exec !r.r_live c in
+  r := do_ev !mk !mi !r (W c);
+  if !r.r_shrinking && logged o then merged := cmd_str c :: !merged;
+  outcome_str o
+
+(* a hook command: logged while the rewrite is running *)
+let do_h c =
+  let (g, o) = hexec !hr.hr_live c in
+  if !r.r_shrinking then begin
+    hr := hdo_ev !hr (HW c);
+    if hlogged o then merged := hcmd_str c :: !merged
+  end else
+    hr := { !hr with hr_live = (match o with HFatal -> !hr.hr_live | _ -> g) };
+  (match o with HUpdated -> "updated" | HNotUpdated -> "notupdated" | HFatal -> "fatal")
+
+let start_rewrite () =
+  r := do_ev !mk !mi !r Req;
+  hr := hrun_init !hr.hr_live;
+  merged := []
+
 let handle (toks : Stdlib.String.t list) : Stdlib.String.t =
   match toks with
   | ["consts"] -> Printf.sprintf "%d %d" (Conv.int_of_nat maxkeys) (Conv.int_of_nat maxids)
-  | ["new"] -> mk := maxkeys; mi := maxids; r := idle []; "ok"
-  | ["new"; a; b] -> mk := Conv.nat_of_int (int_of_string a); mi := Conv.nat_of_int (int_of_string b); r := idle []; "ok"
+  | ["new"] -> mk := maxkeys; mi := maxids; reset (); "ok"
+  | ["new"; a; b] -> mk := Conv.nat_of_int (int_of_string a); mi := Conv.nat_of_int (int_of_string b); reset (); "ok"
+  (* FLUSHDB clears both the dataset and the hook registry; one log record *)
+  | ["w"; "flushdb"] ->
+      let sh = !r.r_shrinking in
+      ignore (do_w CFlushdb);
+      (* do_w has pushed "flushdb" on the merged log when shrinking; the hook side must not push again *)
+      if sh then hr := hdo_ev !hr (HW HFlush) else hr := { !hr with hr_live = [] };
+      "updated"
   | "w" :: rest ->
       (match parse_cmd rest with
-       | None -> "?bad command"
-       | Some c ->
-           let (_, o) = exec !r.r_live c in
-           r := do_ev !mk !mi !r (W c);
-           (match o with Updated -> "updated" | NotUpdated -> "notupdated" | ErrKeyNotFound -> "err:keynotfound"))
+       | Some c -> do_w c
+       | None -> (match parse_hcmd rest with Some c -> do_h c | None -> "?bad command"))
   (* an AOFSHRINK request: starts a rewrite, or is ignored while one is running *)
-  | ["req"] -> let was = !r.r_shrinking in r := do_ev !mk !mi !r Req; if was then "ignored" else "started " ^ gate ()
-  | ["begin"] -> if !r.r_shrinking then "?already shrinking" else (r := do_ev !mk !mi !r Req; gate ())
+  | ["req"] -> if !r.r_shrinking then (r := do_ev !mk !mi !r Req; "ignored") else (start_rewrite (); "started " ^ gate ())
+  | ["begin"] -> if !r.r_shrinking then "?already shrinking" else (start_rewrite (); gate ())
   | ["gate"] -> gate ()
-  | ["step"] -> r := do_ev !mk !mi !r Step; gate ()
+  (* the next locked section: of the scan loops, then of the hooks phase *)
+  | ["step"] ->
+      (if sh_done !r.r_sh then hr := hdo_ev !hr HStep else r := do_ev !mk !mi !r Step);
+      gate ()
   (* the final section has run and the deferred epilogue cleared flag and log *)
   | ["end"] -> r := end_rewrite !r; "ok"
   | ["out"] -> cmds_str !r.r_sh.sh_out
-  | ["log"] -> cmds_str !r.r_log
+  | ["hout"] -> hcmds_str !hr.hr_sh.hs_out
+  | ["log"] -> join (Stdlib.List.rev !merged)
   | ["live"] -> dump !r.r_live
+  | ["hlive"] -> hdump !hr.hr_live
   | ["replayed"] -> dump (replay (newfile !r) [])
+  | ["hreplayed"] -> hdump (hreplay (hnewfile !hr) [])
+  | ["hreplayed_orig"] -> (match hreplay_orig (hnewfile !hr) [] with Some g -> hdump g | None -> "fatal")
+  | ["ttl"; ex; now] -> Conv.string_of_z (obj_ttl_tenths (Conv.z_of_string ex) (Conv.z_of_string now))
+  | ["hookttl"; ex; now] -> Conv.string_of_z (hook_ttl_tenths (Conv.z_of_string ex) (Conv.z_of_string now))
   | ["cpoints"] -> Stdlib.String.concat "," (Stdlib.List.map cp_name all_cpoints)
-  (* crash <cpname>: directory after a crash there, for the current scenario with everything
-     flushed (f_pend = []) and the live file = "the log so far"; reports which files exist and
-     which file the repaired / original start-up loads *)
+  (* crashdir <cpname>: which files exist after a crash there *)
   | ["crashdir"; name] ->
       (match Stdlib.List.filter (fun c -> cp_name c = name) all_cpoints with
        | [c] ->
